@@ -5,7 +5,8 @@ from props import endpoint
 
 def check(pid, tier, replay):
     names = ["da", "db", "dh", "h0", "lb", "lp", "m"] if tier == "thorough" else ["a", "b", "h", "h0", "lb", "lp", "m"]
-    gens = [("endpoint/CreditGen", "endpoint/CreditGen_%s.cfg" % n) for n in names]
+    # (the parked-send scripts of CancelGen end without a generous grant: what a cancelled send does to the credit shows in the sends that follow)
+    gens = [("endpoint/CreditGen", "endpoint/CreditGen_%s.cfg" % n) for n in names] + [("endpoint/CancelGen", "endpoint/CancelGen_%s.cfg" % ("dpk" if tier == "thorough" else "pk"))]
     models = [("endpoint/Credit", "endpoint/Credit.cfg"), ("endpoint/CreditWake", "endpoint/CreditWake.cfg"), ("ind/FlowInd", "apalache")]
     if not replay:
         # the dangerous order must be refuted by TLC, otherwise the race model says nothing
